@@ -246,24 +246,38 @@ where
         let mut pos = 0;
         let mut last_offset_slot = None::<&mut [u8]>;
 
+        // On failure the items emplaced so far are kept and the chain is terminated properly.
+        let mut result = Ok(());
         for item_emplacer in self.iter {
             if data.len() < offset_size {
-                return Err(Error {
+                result = Err(Error {
                     kind: ErrorKind::InsufficientSize,
                     pos,
                 });
+                break;
             }
             let (offset_slot, payload) = data.split_at_mut(offset_size);
-            let item = item_emplacer.emplace(payload)?;
+            let item = match item_emplacer.emplace(payload) {
+                Ok(item) => item,
+                Err(e) => {
+                    result = Err(e.offset(pos + offset_size));
+                    data = offset_slot;
+                    break;
+                }
+            };
             let payload_size = ceil_mul(item.size(), FlexVec::<T, L>::ALIGN);
             let offset = offset_size + payload_size;
-            L::from_usize(offset)
-                .and_then(|o| if o < L::max_value() { Some(o) } else { None })
-                .ok_or(Error {
-                    kind: ErrorKind::InsufficientSize,
-                    pos,
-                })?
-                .emplace(offset_slot)?;
+            match L::from_usize(offset).and_then(|o| if o < L::max_value() { Some(o) } else { None }) {
+                Some(o) => o.emplace(&mut *offset_slot)?,
+                None => {
+                    result = Err(Error {
+                        kind: ErrorKind::InsufficientSize,
+                        pos,
+                    });
+                    data = offset_slot;
+                    break;
+                }
+            };
             last_offset_slot = Some(offset_slot);
 
             data = payload.split_at_mut(payload_size).1;
@@ -273,6 +287,7 @@ where
             Some(offset_slot) => L::max_value().emplace(offset_slot)?,
             None => L::zero().emplace(data)?,
         };
+        result?;
 
         Ok(vec)
     }
